@@ -994,9 +994,17 @@ package go9p
 
 //@ func (*SrvReq).Respond(req)
 //@   opt lockcheck
-//@   property C03 C06 C07 C19
+//@   property C03 C06 C07 C08 C19
 //@   requires reqwf(req) && nolocks()
 //@   at call((*SrvReq).Respond) assume arg0 != nil ==> reqwf(arg0)
+//@   at go((*SrvReq).process) assume arg0 != nil ==> reqwf(arg0) && poolok(arg0.Conn) && len(arg0.Rc.Buf) >= arg0.Conn.Msize
+//@   ghost pp bool = false
+//@   at call((*SrvReq).PostProcess) after pp := true
+//@   at call(SrvReqProcessOps.SrvReqRespond) after pp := true
+//@   at send(conn.reqout) requires [once] status & 4 == 0
+//@   at send(conn.reqout) requires [notflushed] status & 1 == 0
+//@   at send(conn.reqout) requires [bookkeeping-first] pp
+//@   at send(conn.reqout) requires [own] req.Conn == conn
 //@   assigns  everything
 
 //@ func (*Srv).version(srv, req)
@@ -1100,7 +1108,7 @@ package go9p
 
 //@ func (*SrvReq).Process(req)
 //@   opt lockcheck
-//@   property C04 C05 C06 C19
+//@   property C04 C05 C06 C08 C19
 //@   requires reqwf(req) && poolok(req.Conn) && nolocks() && len(req.Rc.Buf) >= req.Conn.Msize
 //@   at call((*Srv).walk) requires [fid] old(inmap(req.Conn.fidpool, req.Tc.Fid)) && req.Fid == old(req.Conn.fidpool[req.Tc.Fid])
 //@   at call((*Srv).open) requires [fid] old(inmap(req.Conn.fidpool, req.Tc.Fid)) && req.Fid == old(req.Conn.fidpool[req.Tc.Fid])
@@ -1534,7 +1542,7 @@ package go9p
 
 //@ func (*SrvReq).process(req)
 //@   opt lockcheck
-//@   property C07 C06 C03 C19
+//@   property C07 C06 C03 C08 C19
 //@   requires reqwf(req) && poolok(req.Conn) && nolocks() && len(req.Rc.Buf) >= req.Conn.Msize
 //@   at call((*SrvReq).Process) requires [notflushed] flushed == false
 //@   assigns  everything
@@ -1543,7 +1551,7 @@ package go9p
 
 //@ func (*Conn).recv(conn)
 //@   opt lockcheck
-//@   property C13 C12 C06 C03 C19
+//@   property C13 C12 C06 C03 C08 C19
 //@   requires connok(conn) && poolok(conn) && nolocks() && conn.conn != nil && conn.Msize <= 268435455
 //@   ghost rd int = 0
 //@   ghost nf int = 0
@@ -1555,6 +1563,7 @@ package go9p
 //@   at call(Unpack) requires [stream] unread(conn, buf, pos, rd)
 //@   at call(Unpack) requires [aligned] rd - pos == fstart(instream(conn), nf)
 //@   at call(Unpack) after nf := nf + 1
+//@   at call((*SrvReq).process) requires [C08 synconly] arg0.Tc.Type == 100
 //@   at call((*SrvReq).process) requires [size] 7 <= arg0.Tc.Size && arg0.Tc.Size <= conn.Msize && len(arg0.Rc.Buf) <= conn.Msize
 //@   at go((*SrvReq).process) requires [size] 7 <= arg0.Tc.Size && arg0.Tc.Size <= conn.Msize && len(arg0.Rc.Buf) <= conn.Msize
 //@   at call((*SrvReq).process) ensures forall k int :: 0 <= k && k < len(buf) ==> buf[k] == before(buf[k])
